@@ -18,8 +18,8 @@ SUMMARY_RES = [
     ("unreachable_types", re.compile(r"^\s*Unreachable types summary: (\d+) removed(?: \((\d+) filtered out\))?, (\d+) changed(?: \((\d+) filtered out\))?, (\d+) added(?: \((\d+) filtered out\))? types?$")),
     ("leaf", re.compile(r"^\s*Leaf changes summary: (\d+) artifacts? changed(?: \((\d+) filtered out\))?$")),
     ("leaf_functions", re.compile(r"^\s*Changed leaf types summary: (\d+)(?: \((\d+) filtered out\))? leaf types? changed$")),
-    ("leaf_fn", re.compile(r"^\s*Removed/Changed/Added functions summary: (\d+) Removed(?: \((\d+) filtered out\))?, (\d+) Changed(?: \((\d+) filtered out\))?, (\d+) Added(?: \((\d+) filtered out\))? functions?$")),
-    ("leaf_var", re.compile(r"^\s*Removed/Changed/Added variables summary: (\d+) Removed(?: \((\d+) filtered out\))?, (\d+) Changed(?: \((\d+) filtered out\))?, (\d+) Added(?: \((\d+) filtered out\))? variables?$")),
+    ("leaf_fn", re.compile(r"^\s*Removed/Changed/Added functions summary: (\d+) Removed(?: \((\d+) filtered out\))?, (\d+) Changed(?: \((\d+) filtered out\))?, (\d+) Added(?: \((\d+) filtered out\))? functions?(?: \((\d+) filtered out\))?$")),
+    ("leaf_var", re.compile(r"^\s*Removed/Changed/Added variables summary: (\d+) Removed(?: \((\d+) filtered out\))?, (\d+) Changed(?: \((\d+) filtered out\))?, (\d+) Added(?: \((\d+) filtered out\))? variables?(?: \((\d+) filtered out\))?$")),
 ]
 
 SECTION_RES = [
@@ -76,7 +76,7 @@ def parse(text):
             if m:
                 g = [int(x) if x else 0 for x in m.groups()]
                 if name in ("functions", "variables", "unreachable_types", "leaf_fn", "leaf_var"):
-                    r.summary[name] = dict(removed=g[0], removed_filtered=g[1], changed=g[2], changed_filtered=g[3], added=g[4], added_filtered=g[5])
+                    r.summary[name] = dict(removed=g[0], removed_filtered=g[1], changed=g[2], changed_filtered=g[3], added=g[4], added_filtered=g[5] or (g[6] if len(g) > 6 else 0))
                 elif name in ("function_symbols", "variable_symbols"):
                     r.summary[name] = dict(removed=g[0], removed_filtered=g[1], added=g[2], added_filtered=g[3])
                 else:
